@@ -6,6 +6,7 @@
 import AisVerif.Model.Sentence
 import AisVerif.Model.Cli
 import AisVerif.Spec.Layouts
+import AisVerif.Model.F32
 
 open AisVerif
 
@@ -35,8 +36,12 @@ def bytesOfHex (s : String) : Option (List UInt8) :=
 def hex32 (n : Nat) : String :=
   String.ofList ((List.range 8).map fun i => hexDigit ((n / 16 ^ (7 - i)) % 16))
 
-/-- The IEEE single-precision computation the Rust code performs, on Lean's `Float32`. -/
-def f32Bits (raw : Int) (op : FOp) : UInt32 :=
+/-- The IEEE single-precision computation the Rust code performs: the model's software binary32
+    (`FOp.bits`, the function the theorems of `Props/C10` are about). -/
+def f32Bits (raw : Int) (op : FOp) : UInt32 := UInt32.ofNat (FOp.bits raw op)
+
+/-- The same computation on the hardware, through Lean's opaque `Float32` (cross-check only: op `F`). -/
+def f32BitsNative (raw : Int) (op : FOp) : UInt32 :=
   let x : Float32 := Float32.ofInt raw
   let v : Float32 := match op with
     | .div10 => x / 10.0
@@ -45,6 +50,17 @@ def f32Bits (raw : Int) (op : FOp) : UInt32 :=
     | .ident => x
     | .div600000mul1000 => (x / 600000.0) * 1000.0
   v.toBits
+
+/-- `F lo hi`: number of raw values in `[lo, hi)` (offset by 2^28, so negative values are covered) on
+    which the software binary32 and the hardware differ, over all five operations. -/
+partial def f32Cross (lo hi : Nat) : String :=
+  let ops := [FOp.div10, .div600000, .div600, .ident, .div600000mul1000]
+  let rec go (i : Nat) (bad : Nat) : Nat :=
+    if i < hi then
+      let raw : Int := (i : Int) - 268435456
+      go (i + 1) (ops.foldl (fun acc op => if f32Bits raw op = f32BitsNative raw op then acc else acc + 1) bad)
+    else bad
+  "ok " ++ toString (hi - lo) ++ " " ++ toString (go lo 0)
 
 partial def keyName : Key → String
   | .idx base i => keyName base ++ "." ++ toString i
@@ -213,6 +229,10 @@ def handle (s : St) (line : String) : St × String :=
         | .err _ => "err"
         | .panic _ => "panic")
     | none => (s, "bad-op")
+  | ["F", lo, hi] =>
+    match lo.toNat?, hi.toNat? with
+    | some l, some h => (s, f32Cross l h)
+    | _, _ => (s, "bad-op")
   | ["T", "rotrate", code] =>
     match code.toNat? with
     | some c =>
@@ -221,8 +241,8 @@ def handle (s : St) (line : String) : St × String :=
       if RateOfTurn.parse c = .none then (s, "ok unavailable") else
       (s, match RateOfTurn.rateRaw raw with
         | .ok (some r) =>
-          let x : Float32 := Float32.ofInt r / 4.733
-          "ok f:" ++ hex32 (x * x).toBits.toNat
+          let x := F32.div (F32.ofInt r) (F32.lit 4733 1000)
+          "ok f:" ++ hex32 (F32.mul x x)
         | .ok none => "ok none"
         | .err _ => "err"
         | .panic _ => "panic")
